@@ -204,3 +204,22 @@ def handled_rules(body, facts, pair_pred=None):
             arms = {vnames[v]: tgt for v, tgt in es[1].items() if v < len(vnames)}
             out.append((bb, arms, es[2], d[2]))
     return out
+
+
+def rule_parse_complete(ctx, facts, prefix):
+    """every statement of a file is seen: the whole-file rule is parsed without a pest call limit
+    (a limit makes `parse` fail on large files, and a failed parse is an empty result — the file's
+    statements and their IDs silently disappear from every pass)"""
+    n = 0
+    bad = []
+    for b in facts.non_test_bodies():
+        for c in b.calls:
+            n += 1
+            if c.matches(r"^pest::(set_call_limit|parser_state::set_call_limit)$|pest::.*set_call_limit$"):
+                bad.append(c)
+    ctx.check(not bad, prefix, "parser-call-limit", "no pest call limit is configured (%s)" % ([c.where() for c in bad] or "none among %d call sites" % n),
+              bad[0].where() if bad else "")
+    f = facts.one(FIND)
+    if f is not None:
+        pc = [c for c in f.calls if c.matches(r"::parse$") and ("RustParser" in c.func.get("full", "") or "pest::Parser" in (c.declared or ""))]
+        ctx.check(len(pc) == 1, prefix, "one-parse", "each file's text is parsed once, as a whole (%d parse calls)" % len(pc), f.where())
